@@ -35,7 +35,9 @@ ExecK   == {"then_exec", "detach_exec"}
 DetK    == {"detach_inline", "detach_exec"}
 DropK   == {"detach", "drop"}
 WaitK   == {"get", "wait"}
-AllProd == {"val", "err", "exc", "drop"}
+\* thr_retry / thr_drop: the first Promise::Set throws while the Result is being constructed (no visible operation:
+\* nothing was published, the Promise still belongs to the producer), then the producer sets an exception / drops it
+AllProd == {"val", "err", "exc", "drop", "thr_retry", "thr_drop"}
 AllCons == ContK \cup DropK \cup WaitK \cup {"connect", "get_const"}
 
 PLocs == {"res1", "core1", "res2", "core2", "func", "evobj", "evready"}
@@ -61,7 +63,7 @@ VARIABLES scen,     \* [prod, cons]
 
 vars == <<scen, cb1, cb2, res1, res2, alive, evReady, mtx, cvWait, woken, q, pc, calls, gets, err, stored, ev, mm>>
 
-Payload == CASE scen.prod = "val" -> "v7" [] scen.prod = "exc" -> "exc:x" [] OTHER -> "stop"
+Payload == CASE scen.prod = "val" -> "v7" [] scen.prod \in {"exc", "thr_retry"} -> "exc:x" [] OTHER -> "stop"
 Ptr == CASE scen.cons \in ContK -> "@C.a0" [] scen.cons \in DropK -> "@drop"
          [] scen.cons \in WaitK -> "@C.stk" [] scen.cons = "connect" -> "@c2" [] OTHER -> "@none"
 O2 == IF scen.cons = "connect" THEN "c2.cb" ELSE "C.a0.cb"
